@@ -979,9 +979,34 @@ func runPSSeq(env *ev.Env, c Case) (o ev.Outcome) {
 			if !present[id] && !op.Commit {
 				continue
 			}
+			windowFailed := false
 			err := p.write(op.Commit, func(ctx context.Context, tx database.Tx) error {
-				return p.ps.DeletePart(ctx, tx, partID(id))
+				if err := p.ps.DeletePart(ctx, tx, partID(id)); err != nil {
+					return err
+				}
+				if op.Mode == "window" && present[id] {
+					// a complete read of the part between DeletePart(tx) and the end of the transaction
+					// (another request; the delete is not committed, so the part is there): it must not
+					// leave anything behind that outlives the committed delete (seeded defect S-C15-2)
+					o.Class("ps-seq:read-inside-delete-transaction")
+					interesting = true
+					r, ok := open(id, when+" [read inside the delete transaction]")
+					if !ok {
+						windowFailed = true
+						return nil
+					}
+					if r != nil {
+						if !drain(r, when+" [read inside the delete transaction]") {
+							windowFailed = true
+						}
+						r.close()
+					}
+				}
+				return nil
 			})
+			if windowFailed {
+				return
+			}
 			if err != nil {
 				if !present[id] {
 					continue // deleting an absent part may fail; not this property's business
@@ -1638,7 +1663,11 @@ func genPSSeq(t *rapid.T, env *ev.Env) Case {
 		case 0, 1, 2, 3:
 			return Op{Op: "put", K: k, Commit: rapid.IntRange(0, 5).Draw(t, "commit") != 0}
 		case 4, 5:
-			return Op{Op: "del", K: k, Commit: rapid.IntRange(0, 5).Draw(t, "commit") != 0}
+			d := Op{Op: "del", K: k, Commit: rapid.IntRange(0, 5).Draw(t, "commit") != 0}
+			if rapid.Bool().Draw(t, "window") {
+				d.Mode = "window"
+			}
+			return d
 		case 6, 7, 8:
 			return Op{Op: "get", K: k}
 		case 9, 10:
@@ -1744,6 +1773,11 @@ func directed(env *ev.Env) []Case {
 			Ops: []Op{{Op: "put", K: 0, Commit: true}, {Op: "get", K: 0}, {Op: "del", K: 0, Commit: true}, {Op: "get", K: 0}, {Op: "put", K: 0, Commit: true}, {Op: "get", K: 0}}},
 		{Kind: "ps-seq", Persistor: "mem", Policy: "none", Inner: "sql", Cold: true, Lens: []int{5000, 100},
 			Ops: []Op{{Op: "get", K: 0}, {Op: "abandon", K: 1, N: 10}, {Op: "get", K: 1}, {Op: "del", K: 0, Commit: false}, {Op: "get", K: 0}, {Op: "del", K: 0, Commit: true}, {Op: "get", K: 0}}},
+		// a complete read of the part between DeletePart(tx) and the commit (fs and sql inner store, warm and cold cache)
+		{Kind: "ps-seq", Persistor: "mem", Policy: "lfu-keys", Limit: 3, Inner: "fs", Lens: []int{20000},
+			Ops: []Op{{Op: "put", K: 0, Commit: true}, {Op: "get", K: 0}, {Op: "del", K: 0, Commit: true, Mode: "window"}, {Op: "get", K: 0}, {Op: "get", K: 0}}},
+		{Kind: "ps-seq", Persistor: "fs", Policy: "none", Inner: "sql", Cold: true, Lens: []int{5000},
+			Ops: []Op{{Op: "del", K: 0, Commit: false, Mode: "window"}, {Op: "get", K: 0}, {Op: "del", K: 0, Commit: true, Mode: "window"}, {Op: "get", K: 0}}},
 		// second reader while the first one is filling the cache (filesystem persistor)
 		{Kind: "ps-seq", Persistor: "fs", Policy: "lfu-keys", Limit: 3, Inner: "sql", Lens: []int{20000},
 			Ops: []Op{{Op: "put", K: 0, Commit: true}, {Op: "get", K: 0}, {Op: "get", K: 0}}},
